@@ -167,6 +167,7 @@ def parseNats? (s : String) : Option (List Nat) := natList? s
 def parseOp? (w : List String) : Option Op :=
   match w with
   | ["actor", k, "R"] => do pure (.newRemote (← k.toNat?))
+  | ["drain", a] => do pure (.drain (← a.toNat?))
   | ["join", s, g, as] => do pure (.join (← s.toNat?) (← g.toNat?) (← parseNats? as))
   | ["leave", s, g, as] => do pure (.leave (← s.toNat?) (← g.toNat?) (← parseNats? as))
   | ["monitor", g, a] => do pure (.monitor (← g.toNat?) (← a.toNat?))
@@ -182,6 +183,13 @@ def parseOps? (w : List String) : Option (List Op) :=
   | ["drainjoin", k, s, g, as] => do
     pure [.join (← s.toNat?) (← g.toNat?) (← parseNats? as), .exit (← k.toNat?)]
   | ["drainmon", k, g] => do pure [.monitor (← g.toNat?) (← k.toNat?), .exit (← k.toNat?)]
+  -- `hold k`: stop with a gated post_stop = the pg part of the exit, the task stays parked in Stopping;
+  -- `release k` lets it finish (nothing left for pg); `late k drain|stop`: a call through a stale reference
+  | ["hold", k] => do pure [.exit (← k.toNat?)]
+  | ["release", _] => some []
+  | ["late", k, how] => do
+    let k ← k.toNat?
+    pure (if how == "drain" then [.drain k] else [])
   | _ => (parseOp? w).map fun o => [o]
 
 /-- run a short op list, concatenating the notifications; `spec` = what the specification says
@@ -319,6 +327,11 @@ def step (d : DState) (op impl : String) : DState × StepOut :=
             { d with st := st', acc := d.acc ++ evs, removed := [] }
         | _ => none
       match w' with
+      | ["readded", _] =>
+        -- C11.exit_race_no_late_join / late_drain_then_join_never_adds: cannot happen
+        (d, { model := "readded=0",
+              oracle := if impl == "readded=1" then ["stopping-actor-added-again"] else [],
+              nontrivial := true })
       | ["waited", a] =>
         -- `Stopped` is published: C11.exit_race_no_zombie says the exiter owns nothing now
         let a := a.toNat?.getD 0
